@@ -74,6 +74,9 @@ static void sigsvc_execute(const Plan &p, const ExecOpts &, Result &r) {
                 seqs.push_back(s);
             }
     }
+    // long retry runs: a callback that keeps returning 1 with unusable nonces must be asked again until it delivers (or gives up itself)
+    { static const int longs[6][3] = {{63, O_ZERO, O_PASS}, {64, O_OVER, O_PASS}, {65, O_SZERO, O_PASS}, {300, O_SZERO, O_BAND}, {1000, O_ZERO, O_PASS_NZ}, {257, O_OVER, O_FAIL}};
+      for (auto &l : longs) { std::vector<int> s2((size_t)l[0], l[1]); s2.push_back(l[2]); seqs.push_back(s2); } }
     uint8_t keys[4][32];
     fresh32(keys[0]); keys[0][0] &= 0x7f; keys[0][31] |= 1;
     memset(keys[1], 0, 32); ref::FN.m.to_be(keys[2]); memset(keys[3], 0xff, 32);
@@ -136,7 +139,8 @@ static void sigsvc_execute(const Plan &p, const ExecOpts &, Result &r) {
                     }
                     bool exp_ret = exp_ok && key_valid;
                     std::string cell = std::string(1, "vz no"[kc == 0 ? 0 : kc == 1 ? 1 : kc == 2 ? 3 : 4]) + (entry ? "R" : "E") + std::to_string(cx) + ":";
-                    for (int o : seq) cell += ON[o];
+                    if (seq.size() <= 4) { for (int o : seq) cell += ON[o]; }
+                    else { cell += ON[seq[0]]; cell += "*" + std::to_string(seq.size() - 1); cell += ON[seq.back()]; }
                     // the call
                     uint8_t sig64[64]; int recid = -1; memset(sig64, 0xab, 64);
                     MonMark mk = mon_mark();
@@ -148,6 +152,7 @@ static void sigsvc_execute(const Plan &p, const ExecOpts &, Result &r) {
                     r.cmp();
                     const char *api = entry ? "secp256k1_ecdsa_sign_recoverable" : "secp256k1_ecdsa_sign";
                     for (int o : seq) if (o != O_PASS) { r.faults[std::string("nonce_cb.") + ON[o]]++; }
+                    if (seq.size() > 4) r.probe("long_retry_run");
                     if (!key_valid || seq.size() > 1 || seq[0] != O_PASS) r.cover.insert("fcell:" + cell);
                     if (!key_valid) r.faults["invalid_key"]++;
                     if (!mon_quiet_since(mk)) { r.violate("C01", "callback", api, cell + ": illegal/error callback: " + g_mon.last_illegal); break; }
